@@ -38,9 +38,10 @@ type c04Task struct {
 	NArgs    int
 	PreState int
 	Tier     string
-	From     int // first vector index (resume after a crash)
+	From     int  // first vector index (resume after a crash)
 	Careful  bool // note every input (after a crash) instead of every 256th
 	Until    int  // careful mode: stop before this index (0 = end)
+	Deep     bool // pre-state index refers to c04DeepPreStates; vectors from c04DeepVectors
 }
 
 type c04Viol struct {
@@ -62,6 +63,73 @@ func c04PreStates(k0 string) []Seed {
 	s := typeSeeds(k0)
 	s = append(s, Seed{Name: "expired", Prog: []Op{C("SET", k0, "v", "EX", "1"), {AdvMs: 3000}}})
 	return s
+}
+
+// c04DeepPreStates: the states reached by every program of one or two commands over a builder
+// alphabet (deadlines attached / moved / removed, keys renamed onto each other, containers filled,
+// moved between and emptied) - the "pre-existing keyspace" dimension of the property beyond one
+// key of each type.  Swept with every command x <= 1 argument (thorough: <= 2) over the adversarial
+// alphabet extended by the second key.
+func c04DeepPreStates(k0, k1 string) []Seed {
+	b := []Op{C("SET", k0, "v", "EX", "100"), C("SET", k0, "5"), C("SETEX", k1, "100", "w"), C("EXPIRE", k0, "100"), C("PERSIST", k0), C("RENAME", k0, k1), C("RENAME", k1, k0),
+		C("RPUSH", k0, "a"), C("RPUSH", k1, "b"), C("SADD", k0, "a"), C("HSET", k0, "f", "v"), C("ZADD", k0, "1", "a"), C("XADD", k0, "5-1", "f", "v"),
+		C("LMOVE", k0, k1, "LEFT", "RIGHT"), C("SMOVE", k0, k1, "a"), C("LPOP", k0), C("SREM", k0, "a"), C("HDEL", k0, "f"), C("ZREM", k0, "a"), C("DEL", k0),
+		C("SUNIONSTORE", k1, k0), C("APPEND", k0, "x"), C("INCR", k0), C("SET", k0, "w", "KEEPTTL"), C("EXPIRE", k1, "100")}
+	var out []Seed
+	for _, x := range b {
+		out = append(out, Seed{Name: "after " + x.String(), Prog: []Op{x}})
+	}
+	for _, x := range b {
+		for _, y := range b {
+			out = append(out, Seed{Name: "after " + x.String() + " ; " + y.String(), Prog: []Op{x, y}})
+		}
+	}
+	return out
+}
+
+func c04DeepVectors(n int, k0, k1 string) [][]string {
+	al := append(append([]string{}, c04Alphabet...), "@k1")
+	sub := func(s string) string {
+		switch s {
+		case "@k0":
+			return k0
+		case "@k1":
+			return k1
+		}
+		return s
+	}
+	out := [][]string{}
+	switch n {
+	case 0:
+		out = append(out, []string{})
+	case 1:
+		for _, a := range al {
+			out = append(out, []string{sub(a)})
+		}
+	case 2:
+		for _, a := range al {
+			for _, b := range al {
+				out = append(out, []string{sub(a), sub(b)})
+			}
+		}
+	}
+	return out
+}
+
+func c04SeedsOf(t c04Task) []Seed {
+	ks := h.Keys(shardNum)
+	if t.Deep {
+		return c04DeepPreStates(ks.K0, ks.K1)
+	}
+	return c04PreStates(ks.K0)
+}
+
+func c04VecsOf(t c04Task) [][]string {
+	ks := h.Keys(shardNum)
+	if t.Deep {
+		return c04DeepVectors(t.NArgs, ks.K0, ks.K1)
+	}
+	return c04Vectors(t.Cmd, t.NArgs, ks.K0)
 }
 
 // c04Vectors enumerates the argument vectors of a given length for a command.
@@ -142,10 +210,10 @@ func c04Worker(tb []byte, progress func()) []byte {
 	ks := h.Keys(shardNum)
 	k0, k1, k2 := ks.K0, ks.K1, ks.K2
 	spec := &Spec{Prop: "C04", ShardNum: shardNum, Keys: []string{k0, k1, k2}, TimersOff: true, TTLTolMs: 1000, Lax: true, NoObservers: true}
-	seeds := c04PreStates(k0)
+	seeds := c04SeedsOf(t)
 	seed := seeds[t.PreState]
 	res := c04Result{Replies: map[string]int{}}
-	vecs := c04Vectors(t.Cmd, t.NArgs, k0)
+	vecs := c04VecsOf(t)
 	var x *inst
 	var baseHash uint64
 	var baseLive int
@@ -336,7 +404,26 @@ func runC04() int {
 			}
 		}
 	}
+	deepArgs := 1
+	if tier == "thorough" {
+		deepArgs = 2
+	}
+	nDeep := len(c04DeepPreStates(ks.K0, ks.K1))
+	if os.Getenv("C04_ONLY") == "" || os.Getenv("C04_DEEP") != "" {
+		for n := 0; n <= deepArgs; n++ {
+			for _, c := range cmds {
+				if c == "blpop" || c == "brpop" || c == "subscribe" {
+					continue // covered from the base pre-states; here they would only add waiting
+				}
+				for ps := 0; ps < nDeep; ps++ {
+					b, _ := json.Marshal(c04Task{Cmd: c, NArgs: n, PreState: ps, Tier: tier, Deep: true})
+					tasks = append(tasks, b)
+				}
+			}
+		}
+	}
 	inputs, mutating, probes, crashes := 0, 0, 0, 0
+	deepInputs := 0
 	replies := map[string]int{}
 	var samples []string
 	exhaustive := true
@@ -358,7 +445,7 @@ func runC04() int {
 			if len(crash.Last) == 4 {
 				vi = int(binary.LittleEndian.Uint32(crash.Last))
 			}
-			vecs := c04Vectors(t.Cmd, t.NArgs, ks.K0)
+			vecs := c04VecsOf(t)
 			if !t.Careful {
 				// the culprit is somewhere in [vi, vi+256): redo that window noting every input,
 				// and the rest of the task normally
@@ -372,12 +459,14 @@ func runC04() int {
 					t2.From = vi + 256
 					b2, _ := json.Marshal(t2)
 					more = append(more, b2)
-					pending[t.NArgs]++
+					if !t.Deep {
+						pending[t.NArgs]++
+					}
 				}
 				return more
 			}
 			crashes++
-			pre := c04PreStates(ks.K0)[t.PreState].Name
+			pre := c04SeedsOf(t)[t.PreState].Name
 			var v []string
 			if vi < len(vecs) {
 				v = vecs[vi]
@@ -401,7 +490,9 @@ func runC04() int {
 				b, _ := json.Marshal(t)
 				return [][]byte{b}
 			}
-			pending[t.NArgs]--
+			if !t.Deep {
+				pending[t.NArgs]--
+			}
 			return nil
 		}
 		var r c04Result
@@ -418,6 +509,10 @@ func runC04() int {
 		for _, v := range r.Viol {
 			rep.Add(&ev.Violation{Engine: "seqmc/c04", Kind: v.Kind, Cmd: v.Cmd, Shape: v.Shape, Func: v.Func, Detail: v.Detail,
 				Replay: map[string]interface{}{"engine": "seqmc", "prop": "C04", "prestate": v.PreState, "args": append([]string{v.Cmd}, v.Args...)}})
+		}
+		if t.Deep {
+			deepInputs += r.Inputs
+			return nil
 		}
 		distinct[t.Cmd+"/"+strconv.Itoa(t.NArgs)+"/"+strconv.Itoa(t.PreState)] = true
 		pending[t.NArgs]--
@@ -436,18 +531,21 @@ func runC04() int {
 		samples = []string{"(no state-changing input)"}
 	}
 	cov := map[string]interface{}{
-		"evaluations":                 inputs,
-		"distinct_nontrivial":         mutating,
-		"rule":                        "every registered command (+ SELECT, an unknown name, the empty command) x every argument count 0..3 over the 21-value adversarial alphabet (thorough: 4..6 with the full alphabet in the last two positions) x pre-state {missing, string, list, hash, set, zset, stream, expired}; non-trivial = the input changed the keyspace (then followed by wedge probes). Oracle: no panic, the call returns, no lock left held, probes complete, worker survives",
-		"samples":                     samples,
-		"exhaustive":                  exhaustive,
-		"commands":                    len(cmds),
-		"prestates":                   nPre,
-		"max_args_completed":          doneArgs,
-		"max_args_target":             maxArgs,
-		"reply_classes":               replies,
-		"wedge_probes":                probes,
-		"worker_crashes_or_hangs":     crashes,
+		"deep_prestates":               nDeep,
+		"deep_prestate_inputs":         deepInputs,
+		"deep_prestate_max_args":       deepArgs,
+		"evaluations":                  inputs,
+		"distinct_nontrivial":          mutating,
+		"rule":                         "every registered command (+ SELECT, an unknown name, the empty command) x every argument count 0..3 over the 21-value adversarial alphabet (thorough: 4..6 with the full alphabet in the last two positions) x pre-state {missing, string, list, hash, set, zset, stream, expired}; non-trivial = the input changed the keyspace (then followed by wedge probes). Oracle: no panic, the call returns, no lock left held, probes complete, worker survives",
+		"samples":                      samples,
+		"exhaustive":                   exhaustive,
+		"commands":                     len(cmds),
+		"prestates":                    nPre,
+		"max_args_completed":           doneArgs,
+		"max_args_target":              maxArgs,
+		"reply_classes":                replies,
+		"wedge_probes":                 probes,
+		"worker_crashes_or_hangs":      crashes,
 		"command_arity_prestate_cells": len(distinct),
 	}
 	return rep.Finish(cov, []string{
